@@ -243,7 +243,15 @@ class WWWAuthenticate:
         return self[name]
 
     def __setattr__(self, name: str, value: str | None) -> None:
-        if name in {"_type", "_parameters", "_token", "_on_update"}:
+        if name in {
+            "_type",
+            "_parameters",
+            "_token",
+            "_on_update",
+            "type",
+            "parameters",
+            "token",
+        }:
             super().__setattr__(name, value)
         else:
             self[name] = value
